@@ -53,8 +53,9 @@ def base_cells(rng, shape, big=False, grid=None, keep=None):
         cells = [((i,), (i + 1,)) for i in range(n)]
         pos = [(i,) for i in range(n)]
     elif D == 2:
-        nx, ny = rng.choice([(1, 1), (2, 1), (2, 2), (3, 2), (3, 3), (4, 2), (4, 3), (5, 1)] if not big
-                            else [(4, 4), (6, 3), (12, 1), (5, 5)])
+        nx, ny = grid if grid else rng.choice(
+            [(1, 1), (2, 1), (2, 2), (3, 2), (3, 3), (4, 2), (4, 3), (5, 1)] if not big
+            else [(4, 4), (6, 3), (12, 1), (5, 5)])
         cells, pos = [], []
         for j in range(ny):
             for i in range(nx):
@@ -265,27 +266,167 @@ def _contact_configs():
 CONTACT_CONFIGS = _contact_configs()
 
 
+def _contact_configs_2d():
+    sq2 = [(i, j) for j in range(2) for i in range(2)]
+    sq3 = [(i, j) for j in range(3) for i in range(3)]
+    cfgs = []
+    cfgs.append(("2x2-one-cell-per-rank", (2, 2), None, lambda q: sq2.index(q)))      # 2 edge + 1 corner neighbour each
+    cfgs.append(("3x3-one-cell-per-rank", (3, 3), None, lambda q: sq3.index(q)))
+    cfgs.append(("3x3-checker-2", (3, 3), None, lambda q: sum(q) % 2))
+    cfgs.append(("3x3-parity-4", (3, 3), None, lambda q: (q[0] % 2) + 2 * (q[1] % 2)))
+    lpos = {(0, 0): 0, (1, 0): 0, (0, 1): 0, (1, 1): 1, (2, 1): 2, (2, 0): 3, (2, 2): 4, (0, 2): 5}
+    cfgs.append(("L-shape-2d", (3, 3), set(lpos), lambda q: lpos[q]))
+    diag = {(0, 0): 0, (1, 1): 1, (1, 0): 2, (2, 2): 3}
+    cfgs.append(("diagonal-cells-2d", (3, 3), set(diag), lambda q: diag[q]))
+    return cfgs
+
+
+CONTACT_CONFIGS_2D = _contact_configs_2d()
+
+
+def discovery_order(D, num, IS, rows, r):
+    """comm_ranks order of rank r (neighbours in order of first appearance over r's vertices, ascending vertex index,
+    cells ascending inside a vertex) - recomputed independently of model and implementation"""
+    owner = {cc: q for q, l in enumerate(rows) for cc in l}
+    cav = [[] for _ in range(num[0])]
+    for cc, row in enumerate(IS[(D, 0)]):
+        for v in row:
+            cav[v].append(cc)
+    order = []
+    for v in range(num[0]):
+        rv = []
+        for cc in cav[v]:
+            if cc in owner and owner[cc] not in rv:
+                rv.append(owner[cc])
+        if r in rv:
+            for q in rv:
+                if q != r and q not in order:
+                    order.append(q)
+    return order
+
+
+def contact_levels(D, num, IS, rows):
+    """(a, b) -> highest dimension of a common entity of the patches a and b"""
+    owner = {cc: q for q, l in enumerate(rows) for cc in l}
+    adj = adjacent_cells(D, num, IS)
+    level = {}
+    for dd in range(D):
+        for sset in adj[dd]:
+            rs = {owner[a] for a in sset if a in owner}
+            for a in rs:
+                for b in rs:
+                    if a != b:
+                        level[(a, b)] = max(level.get((a, b), 0), dd)
+    return level
+
+
+def corner_after_higher(D, num, IS, rows):
+    """some rank discovers a corner-only (single shared vertex level) neighbour directly after a neighbour with which it
+    shares an edge or a face: the situation in which stale halo-factory buffers would leak"""
+    level = contact_levels(D, num, IS, rows)
+    for r in range(len(rows)):
+        od = discovery_order(D, num, IS, rows, r)
+        for k in range(1, len(od)):
+            if level.get((r, od[k]), 0) == 0 and level.get((r, od[k - 1]), 0) >= 1:
+                return True
+    return False
+
+
 def gen_contacts(rng, op="extract", reps=2):
-    """3-D partitions with face-, edge-only and vertex-only contacts next to each other (hexahedra and tetrahedra),
-    produced on EVERY run; the numbering (hence the discovery order of the neighbours) is randomised per seed"""
+    """2-D and 3-D partitions with face-, edge-only and vertex-only contacts next to each other (quads, triangles,
+    hexahedra, tetrahedra), produced on EVERY run; the numbering (hence the discovery order of the neighbours) is
+    randomised per seed, and for every configuration that admits it at least one instance is re-drawn until a
+    corner-only neighbour follows an edge/face neighbour in the discovery order of some rank"""
     out = []
-    for name, grid, keep, rank_of in CONTACT_CONFIGS:
-        for shape in ("h3", "s3"):
-            if op == "refine" and (grid == (3, 3, 3) and keep is None):
-                continue
-            for _ in range(reps):
-                mesh = build_mesh(rng, shape, grid=grid, keep=keep)
-                n = mesh["num"][3]
-                rk = [rank_of(mesh["pos"][k]) for k in range(n)]
-                R = max(rk) + 1
+    for cfgs, shapes, D in ((CONTACT_CONFIGS_2D, ("h2", "s2"), 2), (CONTACT_CONFIGS, ("h3", "s3"), 3)):
+        for name, grid, keep, rank_of in cfgs:
+            for shape in shapes:
+                if op == "refine" and (grid == (3, 3, 3) and keep is None):
+                    continue
+                for rep in range(reps):
+                    for attempt in range(60):
+                        mesh = build_mesh(rng, shape, grid=grid, keep=keep)
+                        n = mesh["num"][D]
+                        rk = [rank_of(mesh["pos"][k]) for k in range(n)]
+                        R = max(rk) + 1
+                        rows = [[c for c in range(n) if rk[c] == r] for r in range(R)]
+                        if rep > 0 or corner_after_higher(D, mesh["num"], mesh["IS"], rows):
+                            break
+                    if rng.random() < 0.3:
+                        for l in rows:
+                            rng.shuffle(l)
+                    if op == "extract":
+                        out.append("extract %s %s %s" % (shape, fmt_mesh(mesh, False), fmt_graph(n, rows)))
+                    else:
+                        out.append("refine %s 1 %s %s" % (shape, fmt_mesh(mesh, True), fmt_graph(n, rows)))
+    return out
+
+
+M64 = (1 << 64) - 1
+
+
+class FeatRandom:
+    """kernel/util/random.hpp: xorshift64* and the ranged draw for Index"""
+
+    def __init__(self, seed):
+        self.x = seed if seed != 0 else 28054777172512
+
+    def next(self):
+        x = self.x
+        x ^= x >> 12
+        x ^= (x << 25) & M64
+        x ^= x >> 27
+        self.x = x
+        return (x * 2685821657736338717) & M64
+
+    def ranged(self, a, b):
+        x = self.next()
+        return a + x % (b - a + 1) if a < b else a
+
+
+def iter_threshold(n, dim, np_):
+    import math
+    return max(int(math.pow(float(n), 1.0 / float(dim)) + 1), n // np_, 2)
+
+
+def gen_idist(rng):
+    shape = rng.choice(["h1", "h2", "h2", "s2", "s2", "h3", "s3"])
+    mesh = build_mesh(rng, shape, big=(rng.random() < 0.15))
+    n = mesh["num"][mesh["D"]]
+    np_ = rng.randrange(1, n + 1)
+    return "idist %s %d %d %d %s" % (shape, np_, rng.randrange(n), iter_threshold(n, mesh["D"], np_), fmt_mesh(mesh, False))
+
+
+def gen_iterc(rng):
+    shape = rng.choice(["h1", "h2", "h2", "s2", "s2", "h3", "s3"])
+    mesh = build_mesh(rng, shape, big=(rng.random() < 0.2))
+    n = mesh["num"][mesh["D"]]
+    np_ = rng.randrange(1, min(n, 8) + 1)
+    seed = rng.randrange(1, 1 << 40)
+    fr = FeatRandom(seed)
+    cen = set()
+    while len(cen) < np_:
+        cen.add(fr.ranged(0, n - 1))
+    cen = sorted(cen)
+    return "iterc %s %d %d %d %d %s %s" % (shape, seed, np_, iter_threshold(n, mesh["D"], np_), len(cen),
+                                         " ".join(map(str, cen)), fmt_mesh(mesh, False))
+
+
+def gen_exhaustive(quick):
+    """small-scope exhaustive stream: EVERY assignment of the cells of a 2x3 quadrilateral mesh / small triangle meshes
+    (<= 6 cells) to 1, 2 and 3 ranks - including the assignments that leave a rank empty (abort class)"""
+    import itertools
+    out = []
+    specs = [("h2", (3, 2), 11), ("s2", (2, 1), 12)] if quick else \
+            [("h2", (3, 2), 11), ("s2", (2, 1), 12), ("s2", (3, 1), 13), ("h2", (2, 3), 14), ("h2", (3, 2), 15)]
+    for shape, grid, seed in specs:
+        mesh = build_mesh(random.Random(seed), shape, grid=grid)
+        n = mesh["num"][2]
+        mtxt = fmt_mesh(mesh, False)
+        for R in (1, 2, 3):
+            for rk in itertools.product(range(R), repeat=n):
                 rows = [[c for c in range(n) if rk[c] == r] for r in range(R)]
-                if rng.random() < 0.3:
-                    for l in rows:
-                        rng.shuffle(l)
-                if op == "extract":
-                    out.append("extract %s %s %s" % (shape, fmt_mesh(mesh, False), fmt_graph(n, rows)))
-                else:
-                    out.append("refine %s 1 %s %s" % (shape, fmt_mesh(mesh, True), fmt_graph(n, rows)))
+                out.append("extract %s %s %s" % (shape, mtxt, fmt_graph(n, rows)))
     return out
 
 
@@ -737,6 +878,63 @@ def oracle(case, out):
                         return "patch %d: split mesh part dimension %d refers to base %s, parent part restricted to the patch is %s" % (
                             r, d, [T[d][i] for i in got[d]], [T[d][i] for i in exp[d]])
             return None
+        if op in ("idist", "iterc"):
+            if op == "idist":
+                np_, start, thr = c.nat(), c.nat(), c.nat()
+            else:
+                seed, np_, thr = c.nat(), c.nat(), c.nat()
+                cen = c.lst()
+            num, IS, _ = c.mesh_in(D, False)
+            n = num[D]
+            if thr != iter_threshold(n, D, np_):
+                return "CHECK-BUG: threshold of the case line"
+            if is_abnormal(out):
+                return "PartiIterative core ended with " + out
+            adj = adjacent_cells(D, num, IS)
+
+            def bfs(st):
+                dist = {st: 0}
+                todo = [st]
+                while todo:
+                    nxt = []
+                    for x in todo:
+                        for f in IS[(D, D - 1)][x]:
+                            for y in adj[D - 1][f]:
+                                if y not in dist:
+                                    dist[y] = dist[x] + 1
+                                    nxt.append(y)
+                    todo = nxt
+                return dist
+            o = Tk(out)
+            if op == "idist":
+                o.expect("D")
+                got = o.lst()
+                if len(got) != n:
+                    return "distance list has the wrong length"
+                ref = bfs(start)
+                far = any(dv >= thr + 1 for dv in ref.values())
+                for v in range(n):
+                    if v in ref and ref[v] <= thr + 1:
+                        if got[v] != ref[v]:
+                            return "cell %d: distance %d, facet distance from cell %d is %d" % (v, got[v], start, ref[v])
+                    elif v in ref or far:
+                        if got[v] != M64:
+                            return "cell %d beyond the exploration threshold / unreachable has distance %d" % (v, got[v])
+                return None
+            o.expect("IC")
+            got_c = o.lst()
+            if got_c != sorted(cen):
+                return "CHECK-BUG: the generator's Random replica predicted the centres %s, PartiIterative drew %s" % (sorted(cen), got_c)
+            t = o.tok()
+            if t == "UNINIT":
+                un = o.lst()
+                return ("PartiIterative ended with an uncaught std::out_of_range (uninitialised patch index of a cell no "
+                        "centre reached): cells %s keep an uninitialised PartiIterativeItem::patch" % un[:6])
+            rows = [o.lst() for _ in range(o.nat())]
+            e = check_partition_graph(n, rows, n, np_)
+            if e == "partitioner returned an empty patch" and components(D, num, IS) > 1:
+                return "PartiIterative returned an empty patch without reporting failure (disconnected base mesh)"
+            return e
         if op == "hsplit":
             num, IS, _ = c.mesh_in(D, False)
             n_img, rows = c.graph_in()
@@ -882,7 +1080,7 @@ def oracle_wf(case, out):
     num, IS, _ = c.mesh_in(D, False)
     n_img, rows = c.graph_in()
     part = n_img == num[D] and sorted(x for l in rows for x in l) == list(range(n_img))
-    exp = "WF 1 %d %d" % (1 if part else 0, 1 if n_img == num[D] else 0)
+    exp = "WF 1 %d %d 1" % (1 if part else 0, 1 if n_img == num[D] else 0)
     return None if out == exp else "theorem hypotheses on generated input: model says %s, expected %s" % (out, exp)
 
 
@@ -975,6 +1173,8 @@ def describe(case):
                     vert_pairs = {frozenset((owner[a], owner[b])) for s in adj[0] for a in s for b in s if owner[a] != owner[b]}
                     if vert_pairs - facet_pairs:
                         keys.append("class:neighbours-without-common-facet")
+                if D >= 2 and corner_after_higher(D, num, IS, rows):
+                    keys.append("corner-only-neighbour-after-edge/face-neighbour")
                 if D == 3:
                     level = {}
                     for dd in (0, 1, 2):
@@ -1012,9 +1212,9 @@ def describe(case):
 
 def signature(case, out, why):
     t = case.split()
-    if t[0] == "auto" and t[2] != "0" and why:
-        # the two open defects of Geometry::PartiIterative (time-seeded: they manifest only in some runs)
-        if out == "EXC:St12out_of_range":
+    if ((t[0] == "auto" and t[2] != "0") or t[0] == "iterc") and why:
+        # the two open defects of Geometry::PartiIterative (time-seeded in `auto`, deterministic per seed in `iterc`)
+        if out == "EXC:St12out_of_range" or why.startswith("PartiIterative ended with an uncaught std::out_of_range"):
             return "c12-edge:F1"
         if why.startswith("PartiIterative returned an empty patch without reporting failure (disconnected"):
             return "c12-edge:F2"
@@ -1041,7 +1241,7 @@ def main(argv):
         rp = json.load(open(args.replay))
         case = rp["input"]
         op = case.split()[0]
-        if op in ("extract", "p2l", "split", "hsplit", "refine"):
+        if op in ("extract", "p2l", "split", "hsplit", "refine", "idist", "iterc"):
             streams = [vlib.Stream(rp.get("stream", "replay"), [case], [binary], drv, oracle=oracle, nontrivial=nontrivial,
                                    describe=describe, signature=signature, canon=canon)]
         elif op == "wf":
@@ -1061,7 +1261,8 @@ def main(argv):
         n_ext, n_big, n_p2l, n_ref, n_auto, n_iter = (1500, 60, 300, 260, 120, 60) if quick else (14000, 800, 3000, 3000, 1500, 600)
         ext = CORPUS_EXTRACT + c_ext + gen_contacts(rng, "extract", 2 if quick else 8) + [gen_extract(rng) for _ in range(n_ext)] + [gen_extract(rng, True) for _ in range(n_big)]
         spl = [gen_split(rng) for _ in range(n_ext // 5)]
-        hsp = [gen_hsplit(rng) for _ in range(n_ext // 5 if quick else n_ext // 10)]
+        hsp = [gen_hsplit(rng) for _ in range(n_ext // 10)]
+        itc = [gen_idist(rng) for _ in range(n_ext // 5)] + [gen_iterc(rng) for _ in range(n_ext // 5)]
         p2l = [gen_p2l(rng) for _ in range(n_p2l)]
         ref = c_oth + gen_contacts(rng, "refine", 1 if quick else 4) + [gen_refine(rng) for _ in range(n_ref)]
         aut = c_aut + [gen_auto(rng, False) for _ in range(n_auto)] + [gen_auto(rng, True) for _ in range(n_iter)]
@@ -1069,10 +1270,14 @@ def main(argv):
         streams = [
             vlib.Stream("extract", ext, [binary], drv, oracle=oracle, nontrivial=nontrivial, describe=describe,
                         signature=signature, canon=canon),
+            vlib.Stream("exhaustive-small", gen_exhaustive(quick), [binary], drv, oracle=oracle, nontrivial=nontrivial,
+                        describe=describe, signature=signature, canon=canon),
             vlib.Stream("split-meshpart", spl, [binary], drv, oracle=oracle, nontrivial=nontrivial, describe=describe,
                         signature=signature, canon=canon),
             vlib.Stream("split-halo-2level", hsp, [binary], drv, oracle=oracle, nontrivial=nontrivial, describe=describe,
                         signature=signature, canon=canon),
+            vlib.Stream("parti-iterative-core", itc, [binary], drv, oracle=oracle, nontrivial=lambda c: True,
+                        describe=lambda c: ["op:" + c.split()[0], "shape:" + c.split()[1]], signature=signature, canon=canon),
             vlib.Stream("parti2lvl", p2l, [binary], drv, oracle=oracle, nontrivial=nontrivial, describe=describe,
                         signature=signature, canon=canon),
             vlib.Stream("hypotheses", wf, drv, None, oracle=oracle_wf, nontrivial=lambda c: False),
